@@ -6,7 +6,7 @@ from vlib import gen_http, penv
 
 PROPERTY = "C06"
 RULE = ("streams from the obfuscating and the conforming generators (pipelines, chunked bodies, truncations, mutations) x "
-        "parser configs incl. small limit_request_* values; each stream is fed as <=8192-byte blocks (baseline) and under: "
+        "parser configs incl. small limit_request_* values (one with a 412-byte head/trailer cap and more pipelined bytes than that behind a chunked request); each stream is fed as <=8192-byte blocks (baseline) and under: "
         "every single cut position (exhaustive up to 400 bytes, sampled above), byte-by-byte, line-wise, around every CR/LF, "
         "drawn multi-cuts and drawn 2-cuts (thorough: all 2-cuts for streams <=90 bytes); oracle: identical observation list "
         "(method, target, version, headers, body bytes, body error class, trailers, end offset) and terminal outcome class. "
@@ -28,6 +28,7 @@ CFGS = [
     {"limit_request_line": 0, "limit_request_field_size": 0},
     {"header_map": "refuse"},
     {"proxy_protocol": True},
+    {"limit_request_fields": 4, "limit_request_field_size": 100},
 ]
 _cfgs = {}
 
@@ -82,6 +83,22 @@ def proxied(draw):
 
 
 @st.composite
+def small_cap_pipeline(draw):
+    """config 8 (head / trailer cap 4*(100+2)+4 = 412 bytes): a chunked request within the limits followed, on the same connection, by
+    more pipelined bytes than that cap: caps derived from the limits count the section they protect, not what arrived behind it"""
+    tr = draw(st.sampled_from(["", "X-T: v\r\n", "X-T: %s\r\nX-U: u\r\n" % ("t" * 60)]))
+    z = draw(st.sampled_from(["0", "0", "000", "0;a=b"]))
+    first = "POST /a HTTP/1.1\r\nHost: h\r\nTransfer-Encoding: chunked\r\n\r\n%s\r\n%s\r\n" % (
+        draw(st.sampled_from(["5\r\nhello\r\n", "5;e=1\r\nhello\r\n6\r\n world\r\n", ""])) + z, tr)
+    blen = draw(st.sampled_from([0, 300, 600, 3000, 7000]))
+    follow = draw(st.sampled_from([
+        "POST /b HTTP/1.1\r\nContent-Length: %d\r\n\r\n%s" % (blen, ("b" * 99 + "\n") * (blen // 100)),
+        "GET /n HTTP/1.1\r\nHost: h\r\n\r\n" * draw(st.sampled_from([1, 20, 60])),
+    ]))
+    return {"stream": first + follow, "cfg": 8}
+
+
+@st.composite
 def at_limit(draw):
     """request whose request line / one field sits exactly at, one under or one over the configured limit of its config"""
     ci = draw(st.sampled_from([1, 3, 4]))
@@ -111,7 +128,8 @@ def strategy(tier):
     }
     lim = st.tuples(at_limit(), st.fixed_dictionaries(common)).map(lambda t: dict(t[1], **t[0]))
     prox = st.tuples(proxied(), st.fixed_dictionaries(common)).map(lambda t: dict(t[1], **t[0]))
-    return st.one_of(_general(tier), _general(tier), _general(tier), _general(tier), lim, lim, prox)
+    small = st.tuples(small_cap_pipeline(), st.fixed_dictionaries(common)).map(lambda t: dict(t[1], **t[0]))
+    return st.one_of(_general(tier), _general(tier), _general(tier), _general(tier), lim, lim, prox, small)
 
 
 def _general(tier):
